@@ -17,7 +17,7 @@ RULE = ('per case one confidentiality configuration (COSE_Encrypt0 with A128GCM 
         'rewrites of primary fields, target metadata, security source, scope, IV, ciphertext, tag; wrong / missing key). One evaluation = '
         'one altered reception; distinct = (configuration digest, alteration).')
 COMPONENTS = bc.COMPONENTS
-PROBES = ('class.covered', 'class.other', 'kind.enc0', 'kind.two_targets', 'kind.two_bcb', 'kind.foreign', 'alt.bitflip', 'alt.field', 'alt.wrong-key', 'alt.missing-key', 'cov.primary',
+PROBES = ('class.covered', 'class.other', 'kind.enc0', 'kind.two_targets', 'kind.two_bcb', 'kind.split_assoc', 'kind.foreign', 'alt.bitflip', 'alt.field', 'alt.wrong-key', 'alt.missing-key', 'cov.primary',
           'cov.target-btsd', 'cov.target-meta', 'cov.source', 'cov.scope', 'cov.iv', 'wire.no_plaintext_window', 'plain.empty', 'accept.on', 'accept.off')
 ASSUMPTIONS = ['plaintext recovery is checked with acceptance enabled; with acceptance off a verified bundle is delivered still encrypted, which the statement allows',
                'COSE_Encrypt with wrapped content keys needs the pycose fork pinned in pyproject.toml and is not exercised (see C03)']
@@ -37,7 +37,7 @@ def gen(ch, tier):
                 pri_crc=ch.choice('pc', (0, 0, 2, 1)), blk_crc=ch.choice('bc', (0, 0, 1, 2)), window=ch.pick('window', 1 << 16),
                 wsize=24 if tier == 'quick' else 96, accept=ch.coin('accept', 2, 3), dst_key=ch.choice('dstkey', ('right', 'right', 'right', 'wrong', 'missing')),
                 falg=ch.choice('falg', (1, 3)), scope=ch.choice('scope', ([[0, 1], [-1, 1]], [[0, 1], [-1, 1], [-2, 1]], [[-1, 1]])),
-                tgt_ext=(kind != 'foreign' and ch.coin('tgtext', 1, 3)), fixup=True)
+                tgt_ext=(kind != 'foreign' and ch.coin('tgtext', 1, 3)), split_assoc=ch.coin('split', 1, 2), fixup=True)
 
 
 def _kid(plan):
@@ -58,6 +58,10 @@ def _policy(plan):
         ivs.append(_iv(C03.seq_code(ix)).hex())
         if plan.get('tgt_ext'):
             ivs.append((b'XV' + _iv(C03.seq_code(ix))[2:]).hex())
+    if plan.get('tgt_ext') and plan.get('split_assoc'):
+        # two associations, the one for the extension block listed first: operations are not in ascending target order
+        return [dict(src='.*', dst='.*', targets=[192], ops=[dict(type='bcb', kid=_kid(plan), ivs=ivs[1::2])]),
+                dict(src='.*', dst='.*', targets=[1], ops=[dict(type='bcb', kid=_kid(plan), ivs=ivs[0::2])])]
     return [dict(src='.*', dst='.*', targets=[1, 192] if plan.get('tgt_ext') else [1], ops=[dict(type='bcb', kid=_kid(plan), ivs=ivs)])]
 
 
@@ -120,6 +124,9 @@ def classify(orig, alt_bytes):
         return ('other', {'malformed'}, set())
     labels = sc.describe_change(orig, alt)
     bcb = sc.sec_blocks(orig, rfc9171.TYPE_BCB)[0]
+    if not [blk for blk in alt['blocks'] if blk['num'] == bcb['num'] and blk['type'] == rfc9171.TYPE_BCB]:
+        # the alteration removed the confidentiality block itself: the target stays ciphertext, nothing is decrypted
+        return ('other', labels | {'bcb-removed'}, set())
     asb = bpsec_cose.parse_asb(bcb['btsd'])
     (scope, _addl) = bpsec_cose.scope_and_protected(asb)
     targets = set(asb['targets'])
@@ -268,11 +275,13 @@ def _drive(run, plan, har):
     if plan['kind'] == 'two-bcb':
         return _drive_two(run, plan, har)
     stats = run.stats
-    cfg = bc.digest({key: plan[key] for key in ('kind', 'plen', 'others', 'pri_crc', 'blk_crc', 'dst_key', 'accept', 'falg', 'scope', 'tgt_ext')})
+    cfg = bc.digest({key: plan[key] for key in ('kind', 'plen', 'others', 'pri_crc', 'blk_crc', 'dst_key', 'accept', 'falg', 'scope', 'tgt_ext', 'split_assoc')})
     stats['kind.' + ('foreign' if plan['kind'] == 'foreign' else 'enc0')] = 1
     stats['accept.' + ('on' if plan['accept'] else 'off')] = 1
     if plan.get('tgt_ext'):
         stats['kind.two_targets'] = 1
+        if plan.get('split_assoc'):
+            stats['kind.split_assoc'] = 1
     if plan['plen'] == 0:
         stats['plain.empty'] = 1
     index = 0
@@ -303,10 +312,12 @@ def _drive(run, plan, har):
     # independent decryption of what the source produced
     asb = bpsec_cose.parse_asb(bcbs[0]['btsd'])
     (scope, addl) = bpsec_cose.scope_and_protected(asb)
-    tgt = [blk for blk in orig0['blocks'] if blk['num'] == asb['targets'][0]][0]
+    # the payload block (number 1) need not be the first target
+    pix = asb['targets'].index(1) if 1 in asb['targets'] else 0
+    tgt = [blk for blk in orig0['blocks'] if blk['num'] == asb['targets'][pix]][0]
     try:
         aad = bpsec_cose.external_aad(orig0, bcbs[0], tgt, scope, asb['source_raw'], addl)
-        got = bpsec_cose.dec0(sc.RAW_KEYS[_kid(plan).encode()], asb['results'][0][0][1], aad, tgt['btsd'])
+        got = bpsec_cose.dec0(sc.RAW_KEYS[_kid(plan).encode()], asb['results'][pix][0][1], aad, tgt['btsd'])
     except Exception as err:  # pylint: disable=broad-except
         got = None
     if got != plain:
